@@ -32,6 +32,9 @@ pub(crate) trait Event {
 
 static TOKEN_FD: Lazy<DashMap<u64, c_int>> = Lazy::new(DashMap::new);
 
+/// The token that the registration of a descriptor currently carries.
+static REGISTERED_TOKENS: Lazy<DashMap<c_int, u64>> = Lazy::new(DashMap::new);
+
 static READABLE_RECORDS: Lazy<DashSet<c_int>> = Lazy::new(DashSet::new);
 
 static READABLE_TOKEN_RECORDS: Lazy<DashMap<c_int, u64>> = Lazy::new(DashMap::new);
@@ -80,6 +83,17 @@ pub(crate) trait Selector<I: Interest, E: Event, S: EventIterator<E>> {
     /// if add failed.
     fn add_read_event(&self, fd: c_int, token: u64) -> std::io::Result<()> {
         if READABLE_RECORDS.contains(&fd) {
+            if REGISTERED_TOKENS.get(&fd).is_some_and(|r| token == *r.value()) {
+                return Ok(());
+            }
+            // somebody else waits on the descriptor now, its readiness has to carry the new token
+            let interests = if WRITABLE_RECORDS.contains(&fd) {
+                I::read_and_write(token)
+            } else {
+                I::read(token)
+            };
+            self.reregister(fd, token, interests)?;
+            _ = READABLE_TOKEN_RECORDS.insert(fd, token);
             return Ok(());
         }
         if WRITABLE_RECORDS.contains(&fd) {
@@ -99,6 +113,17 @@ pub(crate) trait Selector<I: Interest, E: Event, S: EventIterator<E>> {
     /// if add failed.
     fn add_write_event(&self, fd: c_int, token: u64) -> std::io::Result<()> {
         if WRITABLE_RECORDS.contains(&fd) {
+            if REGISTERED_TOKENS.get(&fd).is_some_and(|r| token == *r.value()) {
+                return Ok(());
+            }
+            // somebody else waits on the descriptor now, its readiness has to carry the new token
+            let interests = if READABLE_RECORDS.contains(&fd) {
+                I::read_and_write(token)
+            } else {
+                I::write(token)
+            };
+            self.reregister(fd, token, interests)?;
+            _ = WRITABLE_TOKEN_RECORDS.insert(fd, token);
             return Ok(());
         }
         if READABLE_RECORDS.contains(&fd) {
@@ -138,7 +163,7 @@ pub(crate) trait Selector<I: Interest, E: Event, S: EventIterator<E>> {
         if READABLE_RECORDS.contains(&fd) {
             if WRITABLE_RECORDS.contains(&fd) {
                 //写事件不能删
-                let token = WRITABLE_TOKEN_RECORDS.get(&fd).map_or(0, |r| *r.value());
+                let token = REGISTERED_TOKENS.get(&fd).map_or(0, |r| *r.value());
                 self.reregister(fd, token, I::write(token))?;
                 assert!(
                     READABLE_RECORDS.remove(&fd).is_some(),
@@ -161,7 +186,7 @@ pub(crate) trait Selector<I: Interest, E: Event, S: EventIterator<E>> {
         if WRITABLE_RECORDS.contains(&fd) {
             if READABLE_RECORDS.contains(&fd) {
                 //读事件不能删
-                let token = READABLE_TOKEN_RECORDS.get(&fd).map_or(0, |r| *r.value());
+                let token = REGISTERED_TOKENS.get(&fd).map_or(0, |r| *r.value());
                 self.reregister(fd, token, I::read(token))?;
                 assert!(
                     WRITABLE_RECORDS.remove(&fd).is_some(),
@@ -179,6 +204,7 @@ pub(crate) trait Selector<I: Interest, E: Event, S: EventIterator<E>> {
     fn register(&self, fd: c_int, token: u64, interests: I) -> std::io::Result<()> {
         self.do_register(fd, token, interests).map(|()| {
             _ = TOKEN_FD.insert(token, fd);
+            _ = REGISTERED_TOKENS.insert(fd, token);
         })
     }
 
@@ -186,6 +212,7 @@ pub(crate) trait Selector<I: Interest, E: Event, S: EventIterator<E>> {
     fn reregister(&self, fd: c_int, token: u64, interests: I) -> std::io::Result<()> {
         self.do_reregister(fd, token, interests).map(|()| {
             _ = TOKEN_FD.insert(token, fd);
+            _ = REGISTERED_TOKENS.insert(fd, token);
         })
     }
 
@@ -193,6 +220,7 @@ pub(crate) trait Selector<I: Interest, E: Event, S: EventIterator<E>> {
     fn deregister(&self, fd: c_int, token: u64) -> std::io::Result<()> {
         self.do_deregister(fd, token).map(|()| {
             _ = TOKEN_FD.remove(&token);
+            _ = REGISTERED_TOKENS.remove(&fd);
         })
     }
 
